@@ -522,7 +522,8 @@ func run(c *fw.Ctx) {
 	// 4c. flat programs: thousands of simple statements one after the other are
 	// ordinary programs (nothing nests, every jump is short): they must load
 	for fi, unit := range []string{"if 1 then x = 1 end ", "if true then end ", "while true do break end ", "repeat until true ", "repeat x = 1 until 'x' ", "if x then elseif true then end ",
-		"x = x or 1 ", "if not nil then x = 2 end ", "do local a = 1 end ", "for i = 1, 0 do end ", "x = function() return 1 end ", "while false do end "} {
+		"x = x or 1 ", "if not nil then x = 2 end ", "do local a = 1 end ", "for i = 1, 0 do end ", "x = function() return 1 end ", "while false do end ",
+		"if x == nil then x = 1 end ", "while x ~= x do end ", "repeat until x == x ", "if x and x < 2 then x = x end ", "if not (x == 3) or x then end ", "x = x == 1 and 2 or x "} {
 		for _, n := range []int{9000, 12000, 20000} {
 			idx++
 			if !c.Mine(idx) {
